@@ -27,8 +27,29 @@ func init() {
 		},
 		Components: map[string]string{
 			"resolve.Resolver.ArenaResolveGraphQLResponse, InboundRequestSingleFlight, SubgraphRequestSingleFlight, Loader, Resolvable, arena pools": "real code, AST-instrumented",
-			"resolve.DataSource, SubgraphHeadersBuilder, client io.Writer": "stub (harness)",
+			"resolve.DataSource, SubgraphHeadersBuilder, client io.Writer":                                                                           "stub (harness)",
 			"goroutine scheduler, clock": "simulated (baton scheduler in a testing/synctest bubble)",
 		},
+	}
+
+	subComponents := map[string]string{
+		"resolve.Resolver subscription registry (addSubscription, triggers, subscriptionUpdater, heartbeat loop, shutdown), executeSubscriptionUpdate with Loader/Resolvable, SubscriptionFilter": "real code, AST-instrumented",
+		"SubscriptionDataSource (+ startup hook), upstream event actors, SubscriptionResponseWriter recorders, Reporter, AsyncErrorWriter":                                                        "stub (harness)",
+		"goroutine scheduler, clock (heartbeat ticker, timeouts)": "simulated (baton scheduler + fake clock of a testing/synctest bubble)",
+	}
+	subAssume := []string{
+		"baton scheduling serialises execution: pure data races on plain fields are invisible",
+		"completion signal = close of the subscription's completed channel, observed as the return of the synchronous API (except on resolver shutdown, where the API returns on the resolver context without waiting) or the return of Unsubscribe*",
+		"the stub source follows the SubscriptionUpdater contract of the real GraphQL subscription client, including Done() after the trigger context was cancelled",
+	}
+	props["C12"] = &propCfg{
+		World: "sub", QuickRuns: 60000, ThorRuns: 3000000, QuickSecs: 150, ThorSecs: 1500, Level: "exploration", MinNontriv: 50,
+		Rule:        "one case = one seeded simulated execution: 1-4 subscribers (sync and async API, 1-2 inputs x 1-2 header sets, optional filter, heartbeat) join/leave (context cancel, UnsubscribeSubscription, UnsubscribeClient) while per-trigger upstream actors emit numbered updates, complete, error, done and late done; faults: flush/heartbeat write errors, start failures, hook failures, resolver shutdown at any step. Non-trivial = at least one source instance started and more than one subscriber. Distinct = distinct hash of the sequence of context switches.",
+		Assumptions: subAssume, Components: subComponents,
+	}
+	props["C13"] = &propCfg{
+		World: "sub", QuickRuns: 60000, ThorRuns: 3000000, QuickSecs: 150, ThorSecs: 1500, Level: "exploration", MinNontriv: 50,
+		Rule:        "same runs as C12, evaluated with the trigger lifecycle oracle: no second Start for a key while a live instance with a settled subscriber serves it, no delivery across different (input, headers), and at quiescence empty registries, every Start context cancelled, Inc/Dec totals equal for subscription and trigger counts. Non-trivial = at least one source instance started and more than one subscriber. Distinct = distinct hash of the sequence of context switches.",
+		Assumptions: subAssume, Components: subComponents,
 	}
 }
